@@ -65,6 +65,11 @@ class HTTP(BaseComponent):
     def protocol(self):
         return SERVER_PROTOCOL
 
+    def _response_protocol(self, rp):
+        """HTTP version of a response: the client's if we speak its major version, else our own"""
+        sp = self.protocol
+        return 'HTTP/{:d}.{:d}'.format(*(min(rp, sp) if rp[0] == sp[0] else sp))
+
     @property
     def scheme(self):
         return 'https' if self._server.secure else 'http'
@@ -250,6 +255,7 @@ class HTTP(BaseComponent):
                     )
                 req.server = self._server
                 res = wrappers.Response(req, encoding=self._encoding)
+                res.protocol = self._response_protocol(req.protocol)
                 del self._buffers[sock]
                 return self.fire(httperror(req, res, 400))
             return None
@@ -281,11 +287,12 @@ class HTTP(BaseComponent):
             rp = req.protocol
             sp = self.protocol
 
+            res.protocol = self._response_protocol(rp)
+
             if rp[0] != sp[0]:
                 # the major HTTP version differs
                 return self.fire(httperror(req, res, 505))
 
-            res.protocol = 'HTTP/{:d}.{:d}'.format(*min(rp, sp))
             res.close = not parser.should_keep_alive()
 
         clen = int(req.headers.get('Content-Length', '0'))
@@ -460,6 +467,7 @@ class HTTP(BaseComponent):
             return
 
         res = wrappers.Response(req, self._encoding, 500)
+        res.protocol = self._response_protocol(req.protocol)
         self.fire(httperror(req, res, error=error))
 
     @handler('request_complete')
